@@ -228,3 +228,40 @@ func lastResultIsError(sig *types.Signature) (bool, types.Object) {
 	}
 	return true, nil
 }
+
+// forwardEdge is forward with an additional transfer applied to the state flowing along the i-th out-edge of a block.
+func forwardEdge[S any](g *cfg.CFG, entry S, transfer func(n ast.Node, s S) S, edge func(b *cfg.Block, i int, s S) S,
+	join func(a, b S) S, equal func(a, b S) bool) map[*cfg.Block]S {
+
+	in := map[*cfg.Block]S{}
+	seen := map[*cfg.Block]bool{}
+	if len(g.Blocks) == 0 {
+		return in
+	}
+	in[g.Blocks[0]] = entry
+	seen[g.Blocks[0]] = true
+	work := []*cfg.Block{g.Blocks[0]}
+	for iter := 0; len(work) > 0 && iter < 200000; iter++ {
+		b := work[0]
+		work = work[1:]
+		s := in[b]
+		for _, n := range b.Nodes {
+			s = transfer(n, s)
+		}
+		for i, su := range b.Succs {
+			se := edge(b, i, s)
+			if !seen[su] {
+				seen[su] = true
+				in[su] = se
+				work = append(work, su)
+				continue
+			}
+			j := join(in[su], se)
+			if !equal(j, in[su]) {
+				in[su] = j
+				work = append(work, su)
+			}
+		}
+	}
+	return in
+}
